@@ -1,5 +1,6 @@
 import Utv.Model.JsonSchema
 /-! Generic facts about `Utv.JsonSchema.validate` / `wf` (keyword by keyword, append, unknown keywords). -/
+set_option linter.unusedSimpArgs false
 namespace Utv.JsonSchema
 
 /-! ### `validateKws` is a conjunction over the members of the schema object -/
